@@ -27,7 +27,7 @@ rm -f "target/hang_${PROP}.txt"
 ./target/harness/release/vcheck "$PROP" "$TIER"
 code=$?
 # thorough tier: coverage-guided campaign (libFuzzer, oracle inside the target) after the generated tier
-if [ "$code" = "0" ] && [ "$TIER" = "thorough" ]; then
+if [ "$code" = "0" ] && [ "$TIER" = "thorough" ] && [ -z "${VERIF_NO_FUZZ:-}" ]; then
   case "$PROP" in
     C11) python3 tools/fuzz_tier.py C11 c11_decode 400000 8 512; code=$? ;;
     C03) python3 tools/fuzz_tier.py C03 c03_agreement 250000 8 120; code=$? ;;
